@@ -15,6 +15,10 @@ for pr in props:
     m = entries.get(pr["id"])
     if not m:
         continue
+    # the builder of a property keeps its current texts in tools/manifest_texts/<id>.json (text, note, technique)
+    tp = os.path.join(HERE, "manifest_texts", pr["id"] + ".json")
+    if os.path.exists(tp):
+        m = dict(m, **{k: v for k, v in json.load(open(tp)).items() if k in ("text", "note", "technique") and v})
     checks.append(dict(property_id=pr["id"], quick_cmd="./check %s quick" % pr["id"], thorough_cmd="./check %s thorough" % pr["id"],
                        evidence_file="evidence/%s.json" % pr["id"], replay_cmd_template="./check %s --replay {path}" % pr["id"],
                        engine=m.get("engine", "lean-model"),
